@@ -260,10 +260,14 @@ func runCase(c Case, st *ev.Stats) (*outcome, error) {
 				return nil, fmt.Errorf("fault %v in %s: tick of %s decreased %d -> %d", f, cl.Name, names[k], tx.TimeBefore[k], tx.MachTime[k])
 			}
 		}
-		if inException {
+		if inException && !(final && f.Kind != "stall") {
 			continue // containment, liveness and parity only
 		}
-		if f.Kind == "stall" {
+		// (a panic in a FINAL handler of a transition that itself calls Exception: no further Exception
+		// transition is owed - "no nesting" - but the rollback rule applies like anywhere else)
+		if inException {
+			// fall through to the rollback check below
+		} else if f.Kind == "stall" {
 			if tx.Accepted {
 				return nil, fmt.Errorf("fault %v: handler %s overran HandlerTimeout but its transition %s(%v) was not canceled", f, cl.Name, tx.Type, tx.Called)
 			}
@@ -317,7 +321,7 @@ func runCase(c Case, st *ev.Stats) (*outcome, error) {
 				}
 			}
 		}
-		if tx.Accepted {
+		if tx.Accepted && !inException {
 			return nil, fmt.Errorf("fault %v in %s: transition still reported as accepted", f, cl.Name)
 		}
 		if !final {
